@@ -9,7 +9,7 @@ def build(S: Sources) -> Unit:
     return Unit(
         property_id="C19",
         verus=vfiles,
-        kani=L.loop_kani("C19"),
+        kani=L.loop_kani("C19", S, errs),
         build_errors=errs,
         undecided_clauses=L.LOOP_UNDECIDED + EXTRA_UNDECIDED,
         assumptions=L.LOOP_ASSUMPTIONS,
